@@ -19,7 +19,10 @@ lines, corpus/C02/src/*.ns as trace programs), the enumerated product value sour
 reclamation event x observation, the enumerated product temporary receiver x method case x holding
 context (method calls on computed temporaries -- popped elements, call results, concatenations,
 chains -- whose result is held while a string of the same pool class is stored), the enumerated product
-command builder call x argument source x reclaimed region, random programs
+command builder call x argument source x reclaimed region, the enumerated product computed operand of every length
+1..40 x first-allocation shape of a callee (loop / block / branch / nested call entered before any local, no locals at
+all) held across the call, the enumerated product pool size class x bulk release mode with more than a quarter of the
+class's slots alive and then free at once next to live strings of the neighbouring class, random programs
 (the same temporary-receiver shapes are weighted options of the random generator; their distribution
 is reported as `random_temp_shapes`)."""
 import glob
@@ -36,7 +39,8 @@ STAT = re.compile(r"STAT (\d+) end=(\w+) resets=(\d+) frees=(\d+) pallocs=(\d+) 
 FAIL = re.compile(r"ORACLE-FAIL (\d+) (.*)")
 GEN_STAT = re.compile(r"GEN-STAT (.*)")
 # tag keys of the two enumerated products (first line of a product program)
-DIM_KEYS = ("src", "store", "ev", "obs", "recv", "meth", "hold", "storer", "len", "cmd", "arg", "region", "cmdobs")
+DIM_KEYS = ("src", "store", "ev", "obs", "recv", "meth", "hold", "storer", "len", "cmd", "arg", "region", "cmdobs",
+            "held", "hlen", "callee", "ctx", "bulk", "cls", "fill")
 
 # The witnesses of D-02 (fixed by b552049): each differed between the two runs on the pinned tree.
 WITNESSES = [
@@ -166,7 +170,7 @@ def tag_of(src):
     """The `# src=.. store=.. ev=.. obs=..` / `# recv=.. meth=.. hold=.. storer=.. len=..` /
     `# cmd=.. arg=.. region=.. cmdobs=..` first line of a product program as a dict."""
     first = src.split("\n", 1)[0]
-    if not first.startswith(("# src=", "# recv=", "# cmd=")):
+    if not first.startswith(("# src=", "# recv=", "# cmd=", "# held=", "# bulk=")):
         return None
     return dict(kv.split("=", 1) for kv in first[2:].split() if "=" in kv)
 
@@ -234,6 +238,13 @@ def classify(ck, label, reqs, res):
                     ck.count("product_command_builder_programs")
                     if nt:
                         ck.count("product_command_builder_nontrivial")
+                if "held" in t:
+                    ck.count("product_held_across_call_programs")
+                if "bulk" in t:
+                    ck.count("product_mass_release_programs")
+                    # more than a quarter of one class's slots given back: at least 208 frees in the smallest case
+                    if frees >= 200:
+                        ck.count("product_mass_release_over_a_quarter_freed")
                 for k in DIM_KEYS:
                     if k in t:
                         d = dims.setdefault(k, {})
@@ -357,6 +368,12 @@ def genuine(msg):
     return bool(m) and (m.group(1) == "ok" or m.group(1).startswith("rt:"))
 
 
+def loop_cost(src):
+    """Largest loop bound of a program text in thousands (0 for ordinary programs)."""
+    bounds = [int(x) for x in re.findall(r"small pass (\d{4,6})\)", src)]
+    return max(bounds, default=0) // 1000
+
+
 def outcome_of(msg):
     if "ended in abort" in msg:
         return "abort"
@@ -391,7 +408,9 @@ def search(ck):
     # minimise a few of the smallest failing programs: different programs may show different defects
     # programs whose two runs both end normally and print different things first (both outputs are in the
     # report), then aborts / panics of the reclaiming run
-    found.sort(key=lambda f: (not genuine(f[1]), outcome_of(f[1]) != "diff", len(f[0])))
+    # (among those, programs with small loop bounds first: minimising a program that fills thousands of pool slots
+    # costs seconds per candidate)
+    found.sort(key=lambda f: (not genuine(f[1]), outcome_of(f[1]) != "diff", loop_cost(src_of(f[0])), len(f[0])))
     reported = set()
     for req, what in found[:40]:
         if len(reported) >= 3:
